@@ -3,6 +3,7 @@ CONSTANTS N = 7
           C = 2
           Props = {1, 2, 3}
           Endrs = {3, 4, 5, 6, 7}
+          VerifyCarried = FALSE
           MaxMsgs = 100
           Alpha = {}
           EmitOn = FALSE
